@@ -2,7 +2,7 @@
 # confirm_seed.sh <id> [suffix]: independently confirm a seeded change delivered by a sub-agent in /tmp/wt_<id>
 # (compiles, the 55 pinned tests pass with it, demo fails with it and passes without), then store it under /verif/seeded/<id><suffix>/
 set -u
-id=$1; sfx=${2:-}; wt=/tmp/wt_$id; out=/verif/seeded/$id$sfx
+id=$1; sfx=${2:-}; wt=${WT:-/tmp/wt_$id}; out=/verif/seeded/$id$sfx
 cd $wt || exit 2
 log=$(mktemp /var/tmp/confirm_${id}_XXXX.log)
 git diff -- src > /var/tmp/confirm_$id.diff
